@@ -169,7 +169,7 @@ def gen_call_1d(rng, last=None):
         data = 'nan'
     elif t < 0.12 and m in ('poly', 'imodpoly', 'quant_reg', 'pspline_asls', 'asls'):
         data = 'none'
-    return {'m': m, 'kw': kw, 'data': data, 'w': w}
+    return add_pp(rng, {'m': m, 'kw': kw, 'data': data, 'w': w}, ARRAYABLE_1D)
 
 
 def coq_opt(v):
@@ -274,7 +274,47 @@ def refill(buf, base, idx):
     return buf
 
 
-def call_args_1d(call, N, y, pool=None, idx=0, fresh=False):
+# scalar / pair parameters that may be given as ndarrays: the SAME ndarray object is passed to consecutive calls with
+# its contents changed in between (call['pp'] lists the parameters of that call passed this way)
+# (a 0-d spline_degree is rejected by the numba basis kernel's typing, for reused and fresh objects alike)
+# (a 0-d diff_order is unhashable in the 1-D penalty lookup: TypeError for reused and fresh objects alike)
+ARRAYABLE_1D = ('poly_order', 'num_knots', 'lam')
+ARRAYABLE_2D = ('poly_order', 'num_knots', 'spline_degree', 'diff_order', 'lam', 'max_cross', 'half_window')
+FLOAT_PARAMS = ('lam',)
+
+
+def param_array(name, value, dim):
+    """The ndarray a parameter value is passed as: 1-D fitters get 0-d arrays, 2-D fitters a pair (max_cross 0-d)."""
+    dtype = float if name in FLOAT_PARAMS else np.int64
+    if dim == 2 and name != 'max_cross':
+        v = list(value) if isinstance(value, (list, tuple)) else [value, value]
+        return np.array(v, dtype=dtype)
+    if isinstance(value, (list, tuple)):
+        return np.array(value, dtype=dtype)
+    return np.array(value, dtype=dtype)
+
+
+def pool_params(call, kw, pool, fresh, dim, unpool=()):
+    for name in call.get('pp', ()):
+        if name not in kw or kw[name] is None:
+            continue
+        arr = param_array(name, kw[name], dim)
+        if fresh or pool is None or name in unpool or '*' in unpool:
+            kw[name] = arr            # a new object holding the current values
+        else:
+            buf = pool.setdefault(('p', name, arr.shape, arr.dtype.str), np.empty_like(arr))
+            buf[...] = arr            # refill the reusable object in place and pass the same object again
+            kw[name] = buf
+
+
+def add_pp(rng, call, names, prob=0.3):
+    pp = [n for n in names if n in call.get('kw', {}) and call['kw'][n] is not None and rng.random() < prob]
+    if pp:
+        call['pp'] = pp
+    return call
+
+
+def call_args_1d(call, N, y, pool=None, idx=0, fresh=False, unpool=()):
     """pool: per-history reusable argument OBJECTS {'w': float64 (N,) array, 'y': float64 (N,) array}; a call with
     weights / data kind 'pool' refills the object in place and passes the SAME object again (the fresh object
     gets copies of the current values)."""
@@ -303,6 +343,7 @@ def call_args_1d(call, N, y, pool=None, idx=0, fresh=False):
         kw['weights'] = np.linspace(0.5, 1.5, nd)
     elif call['w'] == 'bad':
         kw['weights'] = np.linspace(0.5, 1.5, nd + 1)
+    pool_params(call, kw, pool, fresh, 1, unpool)
     return data, kw
 
 
@@ -405,7 +446,7 @@ def fresh_1d(f, x_in):
     return g
 
 
-def run_history_1d(h, check_fresh=True):
+def run_history_1d(h, check_fresh=True, unpool=()):
     """Runs a history; returns (per-call records, first difference or None).
     record = (observation + [raised], result tag, exception name or None)."""
     N, seed = h['N'], h['seed']
@@ -417,7 +458,7 @@ def run_history_1d(h, check_fresh=True):
     pool = {'w': np.ones(N), 'y': y.copy()}
     for i, call in enumerate(h['calls']):
         # the reusable objects are refilled first; the fresh object then gets copies of their current values
-        args = None if call['m'] == 'set_solver' else call_args_1d(call, N, y, pool, i)
+        args = None if call['m'] == 'set_solver' else call_args_1d(call, N, y, pool, i, unpool=unpool)
         ref = None
         if check_fresh and call['m'] != 'set_solver':
             g = fresh_1d(f, x_in)
@@ -555,18 +596,51 @@ def last_differs(kind):
     return bad
 
 
-def report_diff(ctx, h, diff):
+def by_reference_params(h, diff):
+    """If the difference disappears when the pooled parameter objects are replaced by new objects holding the same
+    values, returns the parameter names whose un-pooling alone removes it (or ['?']); else []."""
+    i, _, kind = diff
+    hp = dict(h, calls=h['calls'][:i + 1])
+    names = sorted({n for c in hp['calls'] for n in c.get('pp', ())})
+    if not names:
+        return []
+    run = run_history_1d if h['dim'] == 1 else run_history_2d
+
+    def differs(unpool):
+        try:
+            _, ds = run(hp, unpool=unpool)
+        except Exception:  # noqa
+            return True
+        return any(d[0] == i and d[2] == kind for d in ds)
+    if differs(('*',)):
+        return []
+    single = [n for n in names if not differs((n,))]
+    if single:
+        return single
+    need = list(names)          # greedy minimal set of parameters that must be given as new objects
+    for n in names:
+        trial = [m for m in need if m != n]
+        if trial and not differs(tuple(trial)):
+            need = trial
+    return need
+
+
+def report_diff(ctx, h, diff, params=()):
     i, what, kind = diff
     hp = dict(h, calls=h['calls'][:i + 1])
     small = shrink(hp, last_differs(kind))
     probe = small['calls'][-1]
     key = f'leak:{h["dim"]}d:{probe["m"]}:{kind}'
+    if params:
+        # a parameter given as an ndarray is kept by reference: editing the caller's array changes a cache key
+        key = f'leak:{h["dim"]}d:{sorted(params)[0]}-array-mutated'
     run = run_history_1d if h['dim'] == 1 else run_history_2d
     _, d2 = run(small)
     d2 = [d for d in d2 if d[2] == kind]
     ctx.fail(key, f'{"Baseline" if h["dim"] == 1 else "Baseline2D"}.{probe["m"]} after {len(small["calls"]) - 1} earlier call(s) '
              f'on the same object differs from the same call on a fresh object: {d2[0][1] if d2 else what} '
-             f'(history: {[(c["m"], c.get("kw"), c.get("w"), c.get("data")) for c in small["calls"]]}, x={small["x"]}, N={small["N"]})',
+             f'(history: {[(c["m"], c.get("kw"), c.get("w"), c.get("data"), c.get("pp")) for c in small["calls"]]}, x={small["x"]}, N={small["N"]}'
+             + (f'; the ndarray passed as {list(params)} is refilled in place between the calls and the object keeps it by reference' if params else '') + ')',
              {'kind': 'history', 'history': small})
 
 
@@ -615,6 +689,8 @@ def histories(ctx, dim, count):
     lits = []
     nnum = 0
     reported = {'result': 0, 'invariant': 0}
+    refkeys = {}
+    excluded = 0
     for k in range(count):
         h = gen(ctx.rng)
         try:
@@ -630,14 +706,30 @@ def histories(ctx, dim, count):
             nnum += r[1] == 'raise' and r[2] != 'ValueError' and c.get('data') != 'none'
         if k < 2:
             ctx.sample({'kind': 'history', 'history': h})
-        lits.append(lit(h, recs))
+        byref = False
         for d in diffs:
+            params = by_reference_params(h, d)
+            if params:
+                # the history is outside the model's hypothesis "cache keys are values captured at call time"
+                byref = True
+                k2 = f'{dim}d:{sorted(params)[0]}'
+                refkeys[k2] = refkeys.get(k2, 0) + 1
+                if refkeys[k2] <= 1:
+                    report_diff(ctx, h, d, params)
+                continue
             reported[d[2]] += 1
             if reported[d[2]] <= 4:      # shrink and report the first few of each kind; count the rest
                 report_diff(ctx, h, d)
+        if byref:
+            excluded += 1
+        else:
+            lits.append(lit(h, recs))
     if reported['result'] or reported['invariant']:
         ctx.note(f'{dim}-D: {reported["result"]} histories with a call differing from the fresh object, '
                  f'{reported["invariant"]} with a cached array differing from a fresh computation')
+    if excluded:
+        ctx.note(f'{dim}-D: {excluded} histories excluded from the correspondence because a cache key was changed through a '
+                 f'caller-owned ndarray kept by reference ({refkeys}); the model assumes keys are values captured at call time')
     ctx.traces += len(lits)
     name = f'hist{dim}d'
     ob = f'correspondence:cache-state-after-every-call-{dim}d'
@@ -697,6 +789,47 @@ Eval vm_compute in (bad ok cases).
                           f'numpy prefix mismatches: {npbad}')
 
 
+def _w2(m, kw, pp):
+    return {'m': m, 'kw': kw, 'data': 'ok', 'w': None, 'pp': pp}
+
+
+# fixed witnesses, replayed first on every run: a cache key changed through a caller-owned ndarray
+WITNESSES = [
+    ('leak:2d:poly_order-array-mutated',
+     {'dim': 2, 'M': 12, 'N': 10, 'x': 'both', 'seed': 1, 'calls': [
+         _w2('poly', {'poly_order': [1, 1], 'max_cross': None}, ['poly_order']),
+         _w2('poly', {'poly_order': [3, 3], 'max_cross': None}, ['poly_order'])]}),
+    ('leak:2d:num_knots-array-mutated',
+     {'dim': 2, 'M': 12, 'N': 10, 'x': 'both', 'seed': 1, 'calls': [
+         _w2('pspline_asls', {'num_knots': [4, 4], 'spline_degree': [3, 3], 'diff_order': [2, 2]}, ['num_knots']),
+         _w2('pspline_asls', {'num_knots': [7, 7], 'spline_degree': [3, 3], 'diff_order': [2, 2]}, ['num_knots'])]}),
+    ('leak:2d:spline_degree-array-mutated',
+     {'dim': 2, 'M': 12, 'N': 10, 'x': 'both', 'seed': 1, 'calls': [
+         _w2('pspline_asls', {'num_knots': [5, 5], 'spline_degree': [1, 1], 'diff_order': [2, 2]}, ['spline_degree']),
+         _w2('pspline_asls', {'num_knots': [5, 5], 'spline_degree': [3, 3], 'diff_order': [2, 2]}, ['spline_degree'])]}),
+    ('leak:1d:num_knots-array-mutated',
+     {'dim': 1, 'N': 40, 'x': 'uniform', 'seed': 1, 'calls': [
+         _w2('pspline_asls', {'num_knots': 5, 'spline_degree': 3, 'diff_order': 2}, ['num_knots']),
+         _w2('pspline_asls', {'num_knots': 9, 'spline_degree': 3, 'diff_order': 2}, ['num_knots'])]}),
+]
+
+
+def replay_witnesses(ctx):
+    ctx.known_replayed = set()
+    for key, h in WITNESSES:
+        ctx.known_replayed.add(key)
+        run = run_history_1d if h['dim'] == 1 else run_history_2d
+        _, diffs = run(h)
+        ctx.case(('witness', key), nontrivial=True, kind='witness')
+        ds = [d for d in diffs if d[2] == 'result'] or diffs
+        if ds:
+            c = h['calls']
+            ctx.fail(key, f'{"Baseline" if h["dim"] == 1 else "Baseline2D"}.{c[1]["m"]} called twice with the SAME ndarray object as '
+                     f'{c[0]["pp"][0]}, its contents changed in place from {c[0]["kw"][c[0]["pp"][0]]} to {c[1]["kw"][c[1]["pp"][0]]} '
+                     f'in between, differs from the same call on a fresh object: {ds[0][1]} (the cache key is kept by reference)',
+                     {'kind': 'history', 'history': h})
+
+
 def run(ctx):
     ctx.rule = ('cases: random call histories (1-12 calls) on one Baseline / Baseline2D object over methods covering every cache user '
                 '(polynomial orders up/down/same, weighted/unweighted, Vandermonde-only methods, spline (num_knots, degree) pairs incl. pairs '
@@ -721,6 +854,7 @@ def run(ctx):
     ctx.translate(['GenC03'])
     ok = ctx.build_props()
     vander_device1(ctx)
+    replay_witnesses(ctx)
     n1 = ctx.n(500, 4000)
     n2 = ctx.n(200, 1500)
     if not ok or ctx.broken:
